@@ -382,6 +382,10 @@ func (sc *ServerConfig) Initialize(tlsCertStore *tlscerts.Store, listenConfigCac
 		if !sc.TunnelRemoteAddress.IsValid() {
 			return errors.New("tunnelRemoteAddress is required for simple tunnel")
 		}
+		// The packer compares packet source addresses against the target address's IP.
+		if sc.TunnelUDPTargetOnly && sc.udpEnabled && !sc.TunnelRemoteAddress.IsIP() {
+			return errors.New("tunnelUDPTargetOnly requires tunnelRemoteAddress to be an IP address")
+		}
 
 	case "http":
 		if err := sc.HTTP.Validate(); err != nil {
